@@ -22,6 +22,7 @@ type DriverResult struct {
 	Stats   map[string]int
 	VCounts map[string]int
 	Samples []any
+	Notes   []string
 	Output  string // go test output for the package when it did not finish
 }
 
@@ -180,6 +181,7 @@ func readDriverLog(dr *DriverResult, path string) {
 			dr.Ran = true
 			_ = json.Unmarshal(e["stats"], &dr.Stats)
 			_ = json.Unmarshal(e["viol_counts"], &dr.VCounts)
+			_ = json.Unmarshal(e["notes"], &dr.Notes)
 		}
 	}
 }
@@ -193,6 +195,7 @@ type DriverSummary struct {
 	NotRunnable int
 	NotGen      int
 	Samples     []any
+	Notes       []string
 }
 
 func Summarize(r *core.Run, res []*DriverResult, classFilter func(class string) bool) *DriverSummary {
@@ -235,6 +238,11 @@ func Summarize(r *core.Run, res []*DriverResult, classFilter func(class string) 
 				if len(s.Samples) < 4 {
 					s.Samples = append(s.Samples, map[string]any{"case": c.ID, "observation": sm})
 				}
+			}
+		}
+		for _, n := range dr.Notes {
+			if len(s.Notes) < 12 {
+				s.Notes = append(s.Notes, c.ID+": "+n)
 			}
 		}
 		if len(s.Samples) == 0 && len(dr.Stats) > 0 {
